@@ -249,6 +249,26 @@ func ruleStateCoverage(c *Ctx, r *Report) {
 		for _, f := range stFields {
 			r.Check(written[f], rule, short(fn)+":writes:"+f, c.pos(fn.Pos()), "written", "deserialize never writes State."+f)
 		}
+		// the imported values are taken as they are: no arithmetic on the way in (the record counter in
+		// particular must keep a value beyond 2^48-1, which is what makes the next write fail)
+		for _, b := range fn.Blocks {
+			for _, in := range b.Instrs {
+				st, ok := in.(*ssa.Store)
+				if !ok {
+					continue
+				}
+				o, f, _, okF := fieldOfAddr(st.Addr)
+				if !okF || o != "dtls.State" {
+					continue
+				}
+				v := stripConv(st.Val)
+				if _, _, isInt := isIntLike(v.Type()); !isInt {
+					continue
+				}
+				_, isArith := v.(*ssa.BinOp)
+				r.Check(!isArith, rule, short(fn)+":verbatim:"+f, c.ipos(in), "State."+f+" is the serialised value as it is", "State."+f+" is computed from the serialised value ("+shapeOf(v, 0)+") instead of being taken as it is: an exported counter at or beyond its limit can come back as a small, already used value")
+			}
+		}
 	}
 	// --- generateInternalState consumes every State field
 	if fn := c.need(r, rule, "(*dtls.State).generateInternalState"); fn != nil {
